@@ -1259,19 +1259,23 @@ class Workspace(AbstractContextManager):
 
         :param entity: The entity to be registered.
         """
-        if isinstance(entity, (Group, Data, ObjectBase)):
-            # identifiers are unique across groups, objects and data
+        if isinstance(entity, (Group, Data, ObjectBase, PropertyGroup)):
+            # identifiers are unique across groups, objects, data and property groups
             for referents, rtype in (
                 (self._groups, "Groups"),
                 (self._data, "Data"),
                 (self._objects, "Objects"),
+                (self._property_groups, None),
             ):
                 other = referents.get(entity.uid, None)
                 if other is None:
                     continue
                 if other() is None:
-                    # identifier of a collected entity: drop its stale node first
-                    self.remove_none_referents(referents, rtype)
+                    if rtype is None:
+                        del referents[entity.uid]
+                    else:
+                        # identifier of a collected entity: drop its stale node first
+                        self.remove_none_referents(referents, rtype)
                 elif other() is not entity:
                     raise RuntimeError(f"Key '{entity.uid}' already used.")
 
